@@ -27,7 +27,7 @@ fn plan(cfg: &RunCfg) -> EncPlan {
     p.addr7 = false;
     p.len_max = 255;
     p.max_body = 249;
-    p.random_per_form = cfg.pick(12_000, 300_000);
+    p.random_per_form = cfg.pick(12_000, 1_000_000);
     p.param_sweep_reps = cfg.pick(1, 10) as u32;
     p.addr_sweep_reps = cfg.pick(2, 40) as u32;
     p.pair_forms = if cfg.thorough() {
